@@ -468,6 +468,31 @@ def run_property(prop, tier, seed, scratch, a):
         for job, r in ex.map(runner, jobs):
             results.append((job, r))
 
+    # Solver time caps and job timeouts are wall-clock: on a loaded machine a core obligation can come
+    # back undecided ("unknown" from the non-linear core, job timeout). Each such job is run once more,
+    # alone, with every cap scaled up; only the second verdict counts (a pass is a pass of the same
+    # obligation, an undecided second run stays inconclusive).
+    retry = [i for i, (job, r) in enumerate(results) if job.core and job.kind in ("rsx", "kani") and r["status"] in ("timeout", "error")
+             and re.search(r"answered unknown|no result within|time-budget|timed out|timeout|out of memory|without a failed check", r.get("detail", "") + r["status"])]
+    for i in retry[:8]:
+        job, r0 = results[i]
+        say("  [%s] retrying alone with scaled time caps: %s (%s)" % (prop, job.id[:70], r0.get("detail", "")[:80]))
+        old_to = job.timeout
+        job.timeout = int(job.timeout * 2.5)
+        try:
+            if job.kind == "rsx":
+                from rsxdrv import run_rsx
+                r, out = run_rsx(job, scratch, seed, slow=True)
+            else:
+                r, out = run_kani(job, scratch)
+        finally:
+            job.timeout = old_to
+        r["first_attempt"] = "%s %s" % (r0["status"], r0.get("detail", "")[:120])
+        with open(os.path.join(logdir, re.sub(r"[^A-Za-z0-9_.+-]", "_", job.id)[:150] + ".retry.log"), "w") as f:
+            f.write(out)
+        say("  [%s] %-70s %-8s %6.1fs (retry)" % (prop, job.id[:70], r["status"], r["wall_s"]))
+        results[i] = (job, r)
+
     violations = []
     known_lines = []
     inconclusive = []
